@@ -1,0 +1,59 @@
+//go:build verif
+
+package stake
+
+import (
+	"github.com/rigochain/rigo-go/types/xerrors"
+)
+
+// VerifIterDelegatees iterates over all delegatees of the last committed version (read-only).
+func (ctrler *StakeCtrler) VerifIterDelegatees(cb func(*Delegatee)) error {
+	ctrler.mtx.RLock()
+	defer ctrler.mtx.RUnlock()
+	if xerr := ctrler.delegateeLedger.IterateReadAllFinalityItems(func(d *Delegatee) xerrors.XError {
+		cb(d)
+		return nil
+	}); xerr != nil {
+		return xerr
+	}
+	return nil
+}
+
+// VerifIterRewards iterates over all reward objects of the last committed version (read-only).
+func (ctrler *StakeCtrler) VerifIterRewards(cb func(*Reward)) error {
+	ctrler.mtx.RLock()
+	defer ctrler.mtx.RUnlock()
+	if xerr := ctrler.rewardLedger.IterateReadAllFinalityItems(func(r *Reward) xerrors.XError {
+		cb(r)
+		return nil
+	}); xerr != nil {
+		return xerr
+	}
+	return nil
+}
+
+// VerifLastValidators returns address and power of the validators last reported to consensus.
+func (ctrler *StakeCtrler) VerifLastValidators() ([][]byte, []int64) {
+	ctrler.mtx.RLock()
+	defer ctrler.mtx.RUnlock()
+	var addrs [][]byte
+	var powers []int64
+	for _, v := range ctrler.lastValidators {
+		addrs = append(addrs, append([]byte(nil), v.Addr...))
+		powers = append(powers, v.TotalPower)
+	}
+	return addrs, powers
+}
+
+// VerifCloseRest closes the DB handles that Close() leaves open,
+// so that one process can open and close many application instances.
+func (ctrler *StakeCtrler) VerifCloseRest() {
+	if ctrler.rewardLedger != nil {
+		_ = ctrler.rewardLedger.Close()
+		ctrler.rewardLedger = nil
+	}
+	if ctrler.rwdHashDB != nil {
+		_ = ctrler.rwdHashDB.Close()
+		ctrler.rwdHashDB = nil
+	}
+}
